@@ -747,6 +747,17 @@ class PowerLawFlux1D(_models.PowerLaw1D):
             x_0 = u.Quantity(self.x_0, u.AA)
             amp = u.Quantity(self.amplitude, self._flux_unit)
 
+            if not any(['wav' in t for t in self._flux_unit.physical_type]):
+                # Amplitude is per frequency: integrate over frequency,
+                # where the power law is amp * (nu / nu_0) ** alpha.
+                x = x.to(u.Hz)
+                x_0 = x_0.to(u.Hz)
+                fac = 1 + self.alpha
+                if fac == 0:
+                    return amp * x_0 * np.log(max(x) / min(x))
+                denom = x_0 ** self.alpha * fac
+                return amp * (max(x) ** fac - min(x) ** fac) / denom
+
         fac = 1 - self.alpha
         if fac == 0:
             # alpha = 1: the integral of 1/x is a logarithm; the general
